@@ -173,7 +173,8 @@ PairsPreludes ==
     <<27, 91, 52, 49, 109, 27, 91, 50, 59, 57, 57, 72, 122>>,                  \* CSI 41m  CSI 2;99H z   (wrap pending)
     <<27, 91, 63, 54, 104, 27, 91, 50, 59, 50, 72, 27, 55, 27, 91, 63, 54, 108>>,   \* CSI ?6h CSI 2;2H ESC 7 CSI ?6l
     <<27, 91, 49, 59, 50, 114, 27, 91, 57, 57, 59, 50, 72>>,                   \* CSI 1;2 r  CSI 99;2H   (below the region)
-    <<27, 91, 50, 59, 57, 57, 72, 122, 27, 91, 63, 55, 108>> }                 \* CSI 2;99H z  CSI ?7l   (wrap pending, then auto-wrap off)
+    <<27, 91, 50, 59, 57, 57, 72, 122, 27, 91, 63, 55, 108>>,                  \* CSI 2;99H z  CSI ?7l   (wrap pending, then auto-wrap off)
+    <<27, 91, 63, 54, 104, 27, 91, 51, 59, 50, 72, 27, 55, 27, 91, 49, 59, 50, 114, 27, 56>> }   \* CSI ?6h CSI 3;2H ESC 7 CSI 1;2 r ESC 8   (origin mode on, cursor BELOW the region and above the last row)
 PairsFills == {PairsContent \o p : p \in PairsPreludes}
 PairsAlphabet(t) ==
      {F0(f) : f \in {"Bs", "Ht", "Lf", "Cr", "So", "Nel", "Hts", "Ri", "Decsc", "Decrc", "Ris", "Decaln", "Scosc", "Scorc", "Decstr"}}
@@ -196,10 +197,11 @@ Lim1 == {1}
 (* whole (C15, C13, C14, C12), whatever internal bookkeeping the functions share.                                   *)
 BatchAlphabet(t) ==
   {F1("Su", 1), F1("Sd", 1), F1("Il", 1), F1("Dl", 1), F1("Ed", 0), F1("Ed", 1), F0("Lf"), F0("Ri"),
-   F2("Cup", 1, 1), F2("Cup", 3, 1), F2("Cup", t.rows, 1), F1("Print", 97)}
+   F2("Cup", 1, 1), F2("Cup", 3, 1), F2("Cup", t.rows, 1), F1("Print", 97), F0("Decrc"), F0("Decsc"), FS("Sgr", <<<<48, 2>>>>)}
 BatchFills ==
   { PairsContent \o <<27, 91, 49, 59, 50, 114, 27, 91, 57, 57, 59, 50, 72>>,       \* CSI 1;2 r  CSI 99;2H
     PairsContent \o <<27, 91, 50, 59, 51, 114, 27, 91, 63, 54, 104>>,              \* CSI 2;3 r  CSI ?6h
+    PairsContent \o <<27, 91, 52, 49, 109, 27, 55, 27, 91, 109, 27, 91, 57, 57, 59, 49, 72>>,     \* CSI 41m ESC 7 CSI m CSI 99;1H  (a saved context with another pen; cursor on the last row)
     PairsContent }
 BatchSizes == {<<3, 4>>}
 
@@ -232,8 +234,9 @@ RisAlphabet(t) ==
   {FS("Decset", <<1>>), FS("Decset", <<6>>), FS("Decrst", <<7>>), FS("Decrst", <<25>>), FS("Sm", <<4>>), FS("Sm", <<20>>),
    F0("So"), F1("Gzd4", 1), F1("G1d4", 1), F0("Hts"), F1("Tbc", 3), F2("Decstbm", 2, t.rows), FS("Sgr", <<<<1, 0>>, <<48, 5>>>>),
    F0("Decsc"), FS("Decset", <<1047>>), FS("Decset", <<1049>>), F1("Print", 97), F0("Lf"), F2("Cup", t.rows, t.cols),
-   Raw(<<27, 93, 97>>), Raw(<<27, 91, 49, 59>>), Raw(<<27, 80>>), Raw(<<27, 40>>), F0("Ris")}
-RisSizes == {<<3, 2>>, <<9, 1>>, <<2, 3>>}
+   Raw(<<27, 93, 97>>), Raw(<<27, 91, 49, 59>>), Raw(<<27, 80>>), Raw(<<27, 40>>), F0("Ris"),
+   F0("Ht"), F1("Tbc", 0)}                                                \* (on 17 columns: one of two default stops cleared)
+RisSizes == {<<3, 2>>, <<9, 1>>, <<2, 3>>, <<17, 1>>}
 RisResizes(t) == {<<c, r>> \in {<<2, 4>>} : <<c, r>> # <<t.cols, t.rows>>}
 
 \* ------------------------------------------------------------- C18: tab stops x widths
